@@ -132,6 +132,45 @@ def crowd_fn_for(b: envs.Bundle):
     return getattr(m, "crowd_step", None)
 
 
+_FF: dict = {}
+
+
+def fast_forward(b: envs.Bundle, st_, ts, prefix: dict):
+    """Deep start: advance a freshly reset episode by up to prefix['steps'] steps of the named scripted policy
+    (a pure JAX function of the state, envs.DEEP_POLICIES) inside one jitted loop, never stepping into a LAST
+    timestep.  The result is a real reachable, non-terminal (state, timestep) that the monitors then treat as the
+    start of the case; replays re-derive it from (key, policy, steps)."""
+    import jax
+    import jax.numpy as jnp
+
+    pol = envs.DEEP_POLICIES[b.name][prefix["policy"]]
+    n = int(prefix["steps"])
+    if n <= 0:
+        return st_, ts
+    k = (id(b), prefix["policy"])
+    if k not in _FF:
+        env = b.env
+
+        def first(s):
+            return env.step(s, pol(env, s))
+
+        def rest(s, t, m):
+            def body(_, c):
+                s1, t1 = c
+                s2, t2 = env.step(s1, pol(env, s1))
+                keep = t2.last()
+                return jax.tree_util.tree_map(lambda x, y: jnp.where(keep, x, y), (s1, t1), (s2, t2))
+
+            return jax.lax.fori_loop(0, m, body, (s, t))
+
+        _FF[k] = (b, jax.jit(first), jax.jit(rest))
+    _, first, rest = _FF[k]
+    s1, t1 = first(st_)
+    if int(t1.step_type) == LAST:
+        return st_, ts
+    return rest(s1, t1, n - 1)
+
+
 def solved_action(b: envs.Bundle, solve_fn, hst, r):
     if solve_fn is None:
         return None
@@ -146,6 +185,9 @@ def run_plan(b: envs.Bundle, rec: Recorder, plan: dict, mon: Monitor, after_last
     issued on the terminal state (C03: stepping after LAST).  Returns summary dict."""
     key = envs.make_key(rec.key_words)
     st_, ts = b.reset(key)
+    if plan.get("prefix"):
+        rec.extra["prefix"] = dict(plan["prefix"])
+        st_, ts = fast_forward(b, st_, ts, plan["prefix"])
     hst, hts = host((st_, ts))
     mon.on_reset(rec, hst, hts)
     t = 0
@@ -190,6 +232,8 @@ def run_plan(b: envs.Bundle, rec: Recorder, plan: dict, mon: Monitor, after_last
 def run_actions(b: envs.Bundle, rec: Recorder, actions, mon: Monitor, first_last_only: bool = False):
     """Replay a concrete action list (no Hypothesis, no plan interpreter)."""
     st_, ts = b.reset(envs.make_key(rec.key_words))
+    if rec.extra.get("prefix"):
+        st_, ts = fast_forward(b, st_, ts, rec.extra["prefix"])
     hst, hts = host((st_, ts))
     mon.on_reset(rec, hst, hts)
     ended = False
